@@ -7,6 +7,7 @@ import (
 	"bytes"
 	"crypto/sha256"
 	"crypto/sha512"
+	"encoding/base64"
 	"encoding/hex"
 	"encoding/json"
 	"fmt"
@@ -122,8 +123,45 @@ func errResp(status int, code string) *http.Response {
 }
 
 // References extracts the digests a manifest body refers to: (blobs, manifests, subject)
+// ManifestDigest: the digest a registry gives a manifest - of its bytes, except for a signed schema1 manifest (a JWS
+// envelope in libtrust's pretty form) where it is the digest of the payload: the bytes up to formatLength plus the
+// decoded formatTail recorded in the first signature's protected header
+func ManifestDigest(alg string, body []byte) string {
+	return Digest(alg, ManifestPayload(body))
+}
+func ManifestPayload(body []byte) []byte {
+	var env struct {
+		SchemaVersion int `json:"schemaVersion"`
+		Signatures    []struct {
+			Protected string `json:"protected"`
+		} `json:"signatures"`
+	}
+	if json.Unmarshal(body, &env) != nil || env.SchemaVersion != 1 || len(env.Signatures) == 0 {
+		return body
+	}
+	pb, err := base64.RawURLEncoding.DecodeString(strings.TrimRight(env.Signatures[0].Protected, "="))
+	if err != nil {
+		return body
+	}
+	var prot struct {
+		FormatLength int    `json:"formatLength"`
+		FormatTail   string `json:"formatTail"`
+	}
+	if json.Unmarshal(pb, &prot) != nil || prot.FormatLength <= 0 || prot.FormatLength > len(body) {
+		return body
+	}
+	tail, err := base64.RawURLEncoding.DecodeString(strings.TrimRight(prot.FormatTail, "="))
+	if err != nil {
+		return body
+	}
+	return append(append([]byte{}, body[:prot.FormatLength]...), tail...)
+}
+
 func References(body []byte) (blobs, mans []string, subject string) {
 	var m struct {
+		FSLayers []struct {
+			BlobSum string `json:"blobSum"`
+		} `json:"fsLayers"`
 		Config *struct{ Digest string } `json:"config"`
 		Layers []struct {
 			Digest    string
@@ -148,6 +186,9 @@ func References(body []byte) (blobs, mans []string, subject string) {
 	}
 	for _, l := range m.Blobs {
 		blobs = append(blobs, l.Digest)
+	}
+	for _, l := range m.FSLayers {
+		blobs = append(blobs, l.BlobSum)
 	}
 	for _, c := range m.Manifests {
 		mans = append(mans, c.Digest)
@@ -439,7 +480,7 @@ func (r *Registry) manifest(req *http.Request, body []byte, repo, ref string, n 
 		if isDigest(ref) {
 			alg = algOf(ref)
 		}
-		d := Digest(alg, body)
+		d := ManifestDigest(alg, body)
 		if isDigest(ref) && d != ref {
 			return errResp(400, "DIGEST_INVALID")
 		}
@@ -587,7 +628,7 @@ func (r *Registry) PutBlob(repo string, b []byte) string {
 func (r *Registry) PutManifest(repo, tag, mt string, body []byte) string {
 	r.mu.Lock()
 	defer r.mu.Unlock()
-	d := Digest("sha256", body)
+	d := ManifestDigest("sha256", body)
 	rp := r.repo(repo, true)
 	rp.Manifests[d] = Man{MT: mt, Body: body}
 	if tag != "" {
